@@ -41,3 +41,14 @@ def relerr(a, b, scale=None):
             return 0.0
     s = scale if scale is not None else max(1.0, float(np.abs(a).max()), float(np.abs(b).max()))
     return float(np.abs(a - b).max() / s)
+
+
+class Unchanged:
+    """context: the arrays handed to the library must be bit-identical afterwards (C16 clause, checked wherever cheap)"""
+
+    def __init__(self, *arrays):
+        self.arrays = [a for a in arrays if isinstance(a, np.ndarray)]
+        self.snap = [a.copy() for a in self.arrays]
+
+    def violated(self):
+        return any(not np.array_equal(a, b, equal_nan=True) for a, b in zip(self.arrays, self.snap))
